@@ -40,8 +40,9 @@ func verifJNewSource(seed int64) rand.Source { return verifJSource{} }
 // node.  "Stored TTLs stay within +/-5% of the configured expiry (rounded up to
 // whole seconds)" and "a not-found result is remembered until the placeholder
 // expires" - for every placement of keys on cluster nodes: a cache of 1, 2 or 3
-// nodes built with WithExpire(100 s) and WithNotFoundExpire(10 s) stores rows for
-// 95..105 s and placeholders for 10..11 s whichever node a key lands on.
+// nodes built with WithExpire(e) and WithNotFoundExpire(n) draws every row's TTL
+// around e and every placeholder's around n whichever node a key lands on; e, n
+// range over ordinary, one-second, sub-second and unset (default) values.
 // Model Redis and seams of h06_node.go (the jitter is any duration within +/-5 %).
 func Verif_C06_new_options() {
 	verifRedis = verifRedisModel{data: map[string]verifEntry{}}
@@ -54,8 +55,32 @@ func Verif_C06_new_options() {
 	for i := 0; i < nodes; i++ {
 		conf = append(conf, NodeConfig{Config: redis.Config{Host: []string{"a:6379", "b:6379", "c:6379"}[i], Type: redis.NodeType}, Weight: 100})
 	}
+	// the configured expiries: ordinary ones, the smallest that is still a whole second,
+	// sub-second ones (legal: the stored TTL is the drawn duration rounded UP to whole
+	// seconds, i.e. 1 s), and "not configured" (zero or negative: the documented defaults)
+	cfgs := [][2]time.Duration{
+		{100 * time.Second, 10 * time.Second},
+		{800 * time.Millisecond, 400 * time.Millisecond},
+		{time.Second, time.Second},
+		{0, 0},
+		{-time.Second, -time.Minute},
+	}
+	cfg := cfgs[verifChoose("expiries", len(cfgs))]
+	wantExpire, wantNotFound := cfg[0], cfg[1]
+	if wantExpire <= 0 {
+		wantExpire = 7 * 24 * time.Hour
+	}
+	if wantNotFound <= 0 {
+		wantNotFound = time.Minute
+	}
+	if cfg[0] > 0 && cfg[0] < time.Second {
+		verifReach("sub-second-expiries")
+	}
+	if cfg[0] <= 0 {
+		verifReach("default-expiries")
+	}
 	c := New(conf, syncx.NewSingleFlight(), &Stat{name: "verif"}, verifErrNoRows,
-		WithExpire(100*time.Second), WithNotFoundExpire(10*time.Second))
+		WithExpire(cfg[0]), WithNotFoundExpire(cfg[1]))
 
 	// three keys: with several nodes each lands on an arbitrary node (symbolic placement)
 	for _, k := range []string{"k1", "k2", "k3"} {
@@ -67,7 +92,7 @@ func Verif_C06_new_options() {
 	verifAssert(len(verifRedis.data) == 3, "every key is stored")
 	verifAssert(len(verifAroundLog) == 3, "one TTL is drawn per stored row")
 	for _, a := range verifAroundLog {
-		verifAssert(a.base == 100*time.Second, "a row's TTL is drawn around the CONFIGURED expiry on whichever node it lands")
+		verifAssert(a.base == wantExpire, "a row's TTL is drawn around the CONFIGURED expiry on whichever node it lands")
 	}
 	nodesUsed := map[string]bool{}
 	for slot := range verifRedis.data {
@@ -91,7 +116,7 @@ func Verif_C06_new_options() {
 	}
 	verifAssert(len(verifAroundLog) == 3, "one TTL is drawn per placeholder")
 	for _, a := range verifAroundLog {
-		verifAssert(a.base == 10*time.Second, "a placeholder's TTL is drawn around the CONFIGURED not-found expiry on whichever node it lands")
+		verifAssert(a.base == wantNotFound, "a placeholder's TTL is drawn around the CONFIGURED not-found expiry on whichever node it lands")
 	}
 	verifReach("options-honoured")
 }
